@@ -872,6 +872,11 @@ def main(tier):
             except Exception as e:  # noqa: BLE001
                 got = f"raised {type(e).__name__}: {e}"[:160]
             chk.add_failure({"input": desc, "show_optimized": show, "lazy_bound_in_caller": False}, {"what": "a tree with a kind to_dot does not know must be reported with ValueError; " + got}, None)
+    # ---- what was drawn BEFORE does not show: Q is drawn after other predicates were drawn (among them the ones Q's lazy references
+    # name, which are not part of Q's tree) and, built again from scratch, without that history; the two graphs are the same text
+    hist_n, hist_bad = _drawn_before(chk)
+    chk.evaluations += hist_n
+    chk.extra["drawn_before_histories"] = hist_n
     for fam in sorted(fam_count):
         chk.add_corr(f"dot/{fam}", fam_count[fam], dis.get(fam, []))
     chk.extra["cases_by_family"] = fam_count
@@ -900,6 +905,43 @@ def main(tier):
         "set members are compared as sets (Python's iteration order is not modelled)",
     ]
     return chk.finish()
+
+
+def _drawn_before(chk):
+    from predicate import all_p, eq_p, ge_p, is_int_p, is_none_p, is_str_p, lazy_p, le_p, to_dot
+
+    def scenario(kind, shape, draw_first, show):
+        # P: the predicate the reference names (bound in this frame, found through the caller frames of to_dot); never a part of Q
+        P = {"or": lambda: is_int_p | is_str_p, "and": lambda: ge_p(1) & le_p(5), "not": lambda: ~is_none_p, "atom": lambda: eq_p(3), "all": lambda: all_p(is_int_p)}[kind]()  # noqa: N806
+        if draw_first:
+            to_dot(P, show_optimized=False)
+            to_dot(P | is_none_p, show_optimized=show)
+        Q = {  # noqa: N806
+            "or": lambda: lazy_p("P") | is_none_p, "or-right": lambda: is_none_p | lazy_p("P"), "and": lambda: lazy_p("P") & eq_p(2), "not": lambda: ~lazy_p("P"),
+            "all": lambda: all_p(lazy_p("P")), "nested": lambda: (is_int_p | is_str_p) & (lazy_p("P") | eq_p(3)), "no-reference": lambda: (is_int_p | is_str_p) & ~eq_p(3),
+        }[shape]()
+        g = to_dot(Q, show_optimized=show)
+        return "\n".join(g.body)
+
+    n, bad = 0, 0
+    for kind in ("or", "and", "not", "atom", "all"):
+        for shape in ("or", "or-right", "and", "not", "all", "nested", "no-reference"):
+            for show in (False, True):
+                n += 1
+                key = {"history": f"P = <{kind}>; to_dot(P); to_dot(P | is_none_p); Q = <{shape} over lazy_p('P')>; to_dot(Q)", "show_optimized": show, "lazy_bound_in_caller": True}
+                try:
+                    after = scenario(kind, shape, True, show)
+                    alone = scenario(kind, shape, False, show)
+                except Exception as e:  # noqa: BLE001
+                    chk.add_failure(key, {"what": f"to_dot raised {type(e).__name__} in a drawn-before history: {e}"[:200]}, None)
+                    bad += 1
+                    continue
+                if after != alone:
+                    la, lb = after.split("\n"), alone.split("\n")
+                    diff = [x for x in la if x not in lb][:3] + ["--- without the history:"] + [x for x in lb if x not in la][:3]
+                    chk.add_failure(key, {"what": "the graph of Q depends on what was drawn before it", "difference": diff}, None)
+                    bad += 1
+    return n, bad
 
 
 def replay(path):
